@@ -52,7 +52,7 @@ func engineReplay(P *Program, r hrun, v *Violation) (bool, string) {
 	if cfg.FixedModel == nil {
 		cfg.FixedModel = map[string]uint64{}
 	}
-	cfg.FixedChoices = v.Choices
+	cfg.FixedChoices = v.AllChoices
 	if r.MaxSteps > 0 {
 		cfg.MaxSteps = r.MaxSteps
 	}
@@ -339,7 +339,7 @@ func (ev *evidence) validateWitnesses(e *Explorer, r hrun, id string) {
 		if k >= 3 {
 			break
 		}
-		v := Violation{Label: "(witness)", Harness: r.Fn, Model: w.Model, Choices: w.Choices, Trace: w.Trace}
+		v := Violation{Label: "(witness)", Harness: r.Fn, Model: w.Model, Choices: w.Choices, AllChoices: w.AllChoices, Trace: w.Trace}
 		path := filepath.Join(verifRoot, "replays", fmt.Sprintf("witness-%s-%s-%d.json", id, r.Fn, k))
 		rep := map[string]interface{}{"property": id, "harness": r.Fn, "package": r.Pkg, "label": "(witness)",
 			"model": v.Model, "choices": v.Choices, "trace": v.Trace}
